@@ -173,10 +173,13 @@ class PreprocessorHexagon:
         """
 
         match = re.match(
-            r"\{.*__COMPOUND_PART1__(\{.+})__COMPOUND_PART1__(.*)}$", insn_beh
+            r"\{(.*)__COMPOUND_PART1__(\{.+})__COMPOUND_PART1__(.*)}$", insn_beh
         )
-        beh_p1 = match.group(1)
-        beh_p2 = "{" + match.group(2) + "}"  # brackets were excluded in regex.
+        beh_p1 = match.group(2)
+        if match.group(1).strip():
+            # Statements before the first part belong to it as well.
+            beh_p1 = "{" + match.group(1) + beh_p1 + "}"
+        beh_p2 = "{" + match.group(3) + "}"  # brackets were excluded in regex.
         return beh_p1, beh_p2
 
     @staticmethod
